@@ -47,6 +47,7 @@ def scenario(ctx, job):
         storage = Struct('MemoryStorage', [Ref(Cell(Struct('Lock', [cur.mstore()])), 'Arc')])
         cur.store = storage.f[0].v.cell.v.f[0]
         g_before = cur.global_epoch_cell().v
+        c1_before = cur.fld(cur.cluster_store('c1'), 'ClusterStore', 'epoch').v
         e.notes['replay'] = {'kind': 'rust-test', 'filter': 'verif_replay_recover_epoch', 'spec': {'largest_proxy_epoch': (1 << 64) - 1, 'global_epoch': 0}}
         fut = e.run_func(e.find_fn('MemoryStorage', 'recover_epoch', 'MetaStorage'), [Ref(Cell(storage)), L])
         res = e.block_on(fut)
@@ -61,7 +62,8 @@ def scenario(ctx, job):
                     ep = cur.fld(p, 'Proxy', 'epoch').v
                     its.append(('served-epoch-above-every-proxy-epoch', 'C13/served-epoch-not-above-largest-proxy-epoch', z3.UGT(bv(ep), L),
                                 lambda m, addr=addr, ep=ep: dict(wit(m), proxy=addr, served_epoch=concretize(ep, m))))
-            rp = lambda m: {'kind': 'rust-test', 'filter': 'verif_replay_recover_epoch', 'spec': {'largest_proxy_epoch': concretize(L, m), 'global_epoch': concretize(g_before, m)}}
+            rp = lambda m: {'kind': 'rust-test', 'filter': 'verif_replay_recover_views', 'spec': {'largest_proxy_epoch': concretize(L, m), 'global_epoch': concretize(g_before, m),
+                                                                                                    'cluster_epoch': concretize(c1_before, m)}}
             for name in ('c1', 'c2'):
                 c = cur.view_cluster(0, name)
                 if c is not None:
@@ -133,14 +135,65 @@ def fetch_epochs(ctx, job):
     ctx.ops += len(res)
 
 
+def service_recovery(ctx, job):
+    """the broker service's whole recovery call: addresses from the (restored, possibly stale) store, GETEPOCH from every
+    proxy, MemoryStorage::recover_epoch: afterwards every served view is above the epoch of every proxy that answered"""
+    import re
+    def run(e):
+        b = Broker(e); build(e, b, False, [0, 1], 's')
+        addrs = b.proxy_addresses()
+        # stale failure flag on a free proxy that is in fact alive (the flag comes from the restored snapshot)
+        free = [a for a in addrs if a not in cluster_proxies(b)]
+        if job.get('stale_flag') and free:
+            fp = b.fld(b.mstore(), 'MetaStore', 'failed_proxies').v
+            fp.items.append(RStr(free[0]))
+        outcomes = {}
+        for i, a in enumerate(addrs):
+            alive = True if (job.get('stale_flag') and free and a == free[0]) or i >= 2 else (e.choose(2, 'alive-%d' % i) == 0)
+            outcomes[a] = ('ok' if alive else 'noconn', z3.BitVec('pe%d' % i, 64))
+            if alive: e.assume(z3.ULT(outcomes[a][1], (1 << 63)))
+        fac = EpochFactory(outcomes)
+        names = [nm for nm in e.mir.funcs if nm.endswith('::new') and 'Pooled' in e.mir.funcs[nm].ret]
+        e.fn_stubs = [(re.compile(re.escape(nm) + '$'), (lambda e_, args: fac), 'PooledRedisClientFactory::new') for nm in names]
+        storage = Struct('MemoryStorage', [Ref(Cell(Struct('Lock', [b.mstore()])), 'Arc')])
+        b.store = storage.f[0].v.cell.v.f[0]
+        sf = e.src.structs['MemBrokerService']
+        svc = Struct('MemBrokerService', [Ref(Cell(storage), 'Arc') if f == 'storage' else Opaque('svc:' + f) for f in sf])
+        fut = e.run_func(e.find_fn('MemBrokerService', 'recover_epoch'), [Ref(Cell(svc))])
+        r = un(e.block_on(Ref(Cell(fut))))
+        items = []
+        def wit(m): return {'proxies': {a: (k, concretize(v, m) if k == 'ok' else None) for a, (k, v) in outcomes.items()}, 'stale_failed_flag_on': free[0] if job.get('stale_flag') and free else None,
+                            'global_after': concretize(b.global_epoch_cell().v, m)}
+        if r.variant != 0:
+            items.append(('recovery-succeeds', 'C13/recovery-call-failed', False, wit)); ctx.require_all(e, items); return 1
+        failed = sorted(sval(c.v) for c in deref_vec(r.f[0].v).cells)
+        items.append(('unreachable-proxies-reported', 'C13/unreachable-proxy-not-reported', failed == sorted(a for a, (k, v) in outcomes.items() if k != 'ok'), wit))
+        def views():
+            its = []
+            for addr in addrs:
+                p = b.view_proxy(addr, 0)
+                if p is None: continue
+                ep = b.fld(p, 'Proxy', 'epoch').v
+                for a2, (k, v) in outcomes.items():
+                    if k == 'ok':
+                        its.append(('served-epoch-above-every-reachable-proxy', 'C13/served-epoch-not-above-a-reachable-proxy-epoch', z3.UGT(bv(ep), v),
+                                    lambda m, addr=addr, ep=ep, a2=a2: dict(wit(m), view_of=addr, served_epoch=concretize(ep, m), not_above=a2)))
+            return ctx.require_all(e, items + its)
+        e.sub_explore(views)
+        return 1
+    res = ctx.explore('service recovery stale_flag=%s' % job.get('stale_flag'), run)
+    ctx.ops += len(res)
+
+
 def worker(ctx, job):
+    if job.get('kind') == 'service': return service_recovery(ctx, job)
     if job.get('kind') == 'fetch': fetch_epochs(ctx, job)
     else: scenario(ctx, job)
 
 
 def run(ctx):
     quick = ctx.tier == 'quick'
-    jobs = [{'kind': 'fetch', 'n': 2}, {'kind': 'fetch', 'n': 3}]
+    jobs = [{'kind': 'fetch', 'n': 2}, {'kind': 'fetch', 'n': 3}, {'kind': 'service'}, {'kind': 'service', 'stale_flag': True}]
     for current in ('fresh', 'older'):
         for second in (False, True):
             jobs.append({'current': current, 'second': second, 'shape': [0, 1]})
